@@ -182,7 +182,7 @@ PLAN["C17"] = {
     "rule": "v=3 variables, values {0,1,2}: all 243 diagrams M(asgn in {0,1,X}^3, value, default) + constants (construction, copy/assign/self-assign, 3 unary ops, VoidApply1); all ordered "
             "pairs x 4 binary leaf operations incl. a non-commutative one (+VoidApply2); all triples of a 33-element sub-basis x 2 ternary ops and 18 depth-2 operation trees; ALL 6561 "
             "functions {0,1}^3->{0,1,2}: GetPaths partition, Project (every variable subset x max/min, and x a non-idempotent and a non-commutative operation against a structural reference), Rename (all order-preserving injections into 5 variables), ExtendWith, "
-            "GetMtbddForPrefix; ALL ordered pairs of ALL functions over 2 (quick) and 3 (thorough: 43M pairs) variables; v=4 in thorough. Oracle: value for EVERY total assignment equals "
+            "GetMtbddForPrefix; ALL ordered pairs of ALL functions over 2 (quick) and 3 (thorough: 43M pairs) variables; v=4; the v=3 domains again with the three variables placed at physical positions {6,7,8}/10, {7,8,9}/10, {0,8,16}/18, {14,15,16}/17, {7,15,32}/33 of a wider assignment (crossing the 8-variables-per-byte packing of SymbolicVarAsgn; every value read under all-0 and all-1 fillings of the unoccupied positions; Rename by shifts 1, 3, 8). Oracle: value for EVERY total assignment equals "
             "the pointwise result, and canonicity: one representative per function table is kept for the whole life of each worker process and operator== must hold for every later "
             "diagram with the same table. Non-trivial = operands/functions not constant or not identical",
     "assumptions": COMMON_ASSUMPTIONS + ["Project with idempotent commutative combiners (max, min: the way libvata uses it) is checked against the combination over all assignments of the removed variables; with non-idempotent operations the result of a reduced ordered diagram is defined structurally (a node exists exactly where the function depends on the variable) and is checked against that definition computed from the function table; Rename only with order-preserving maps (its documented precondition); "
@@ -190,9 +190,9 @@ PLAN["C17"] = {
                                         "VERIF_SEED values rotate the block order) and exhaustively for short histories by the C18 explorer"],
     "claim": "Every diagram / pair / triple / function of the stated finite domains, checked on every total assignment, with canonicity checked against everything built earlier in the same process.",
     "technique": "bounded exhaustive enumeration of MTBDD operands and operation trees against function tables",
-    "quick": [("rel", "c17.v3.base"), ("rel", "c17.v3.apply2"), ("rel", "c17.v3.trees"), ("rel", "c17.v3.allfn"), ("rel", "c17.v2.allpairs"), ("rel", "c17.v4.base"), ("rel", "c17.v4.apply2"), ("rel", "c17.v4.trees")],
+    "quick": [("rel", "c17.v3.base"), ("rel", "c17.v3.apply2"), ("rel", "c17.v3.trees"), ("rel", "c17.v3.allfn"), ("rel", "c17.v2.allpairs"), ("rel", "c17.v4.base"), ("rel", "c17.v4.apply2"), ("rel", "c17.v4.trees"), ("rel", "c17.w1.apply2"), ("rel", "c17.w1.trees"), ("rel", "c17.w1.allfn"), ("rel", "c17.w2.apply2"), ("rel", "c17.w2.trees"), ("rel", "c17.w2.allfn"), ("rel", "c17.w3.apply2"), ("rel", "c17.w3.trees"), ("rel", "c17.w3.allfn"), ("rel", "c17.w4.apply2"), ("rel", "c17.w4.trees"), ("rel", "c17.w4.allfn"), ("rel", "c17.w5.apply2"), ("rel", "c17.w5.trees"), ("rel", "c17.w5.allfn")],
     "thorough": [("rel", "c17.v3.base"), ("rel", "c17.v3.apply2"), ("rel", "c17.v3.trees"), ("rel", "c17.v3.allfn"), ("rel", "c17.v2.allpairs"), ("rel", "c17.v4.base"), ("rel", "c17.v4.apply2"), ("rel", "c17.v4.trees"),
-                 ("rel", "c17.v3.allpairs"), ("asan", "c17.v3.apply2"), ("asan", "c17.v3.allfn")],
+                 ("rel", "c17.v3.allpairs"), ("asan", "c17.v3.apply2"), ("asan", "c17.v3.allfn"), ("rel", "c17.w1.apply2"), ("rel", "c17.w1.trees"), ("rel", "c17.w1.allfn"), ("rel", "c17.w2.apply2"), ("rel", "c17.w2.trees"), ("rel", "c17.w2.allfn"), ("rel", "c17.w3.apply2"), ("rel", "c17.w3.trees"), ("rel", "c17.w3.allfn"), ("rel", "c17.w4.apply2"), ("rel", "c17.w4.trees"), ("rel", "c17.w4.allfn"), ("rel", "c17.w5.apply2"), ("rel", "c17.w5.trees"), ("rel", "c17.w5.allfn"), ("asan", "c17.w5.allfn"), ("asan", "c17.w1.apply2")],
     "require": {"all": ["apply1", "apply2", "apply3", "depth2", "project", "project_nonidempotent", "rename", "extend", "prefix", "getpaths"]},
 }
 
@@ -202,12 +202,13 @@ PLAN["C18"] = {
             "self-assignment), apply2 (or / xor; the result may be assigned over an operand), apply1, destroy. Breadth-first search until NO NEW STATE appears (c18.sat: all 33^3 = 35937 "
             "abstract states, depth 8). In every state: every live handle returns its reference function for all 4 assignments; operator== iff equal tables; the whole node store is walked "
             "(both unique tables read with -fno-access-control): every table entry consistent, every child/root present in a table, reference count of every stored node = #stored parents + "
-            "#live roots; and from EVERY state the probe 'destroy all remaining handles' must bring both unique tables back to their baseline sizes. Re-run under ASan+UBSan",
+            "#live roots; and from EVERY state the probe 'destroy all remaining handles' must bring both unique tables back to their baseline sizes. Re-run under ASan+UBSan. Plus the FAN-IN family (the number of simultaneous references to one node as an enumeration dimension): "
+            "N in {255,256,257,65535,65536,65537,131072,131073} references to one leaf from roots / to one internal node from roots / to two leaves from N distinct stored parents, dropped to every 8- and 16-bit counter boundary, regrown, half overwritten by assignment, other diagrams built and dropped in between: values, unique-table membership and exact stored reference counts after every phase (a 32-bit counter boundary needs 4 G references and is out of reach)",
     "assumptions": HIST_ASSUMPTIONS + ["Project/Rename are excluded from the leak probe on purpose: the statement restricts it to construction, copy and apply"],
     "claim": "Every reachable state of the 3-handle / 2-variable world (saturated search), all invariants in every state, the leak probe from every state, also under AddressSanitizer.",
     "technique": "explicit-state breadth-first search over MTBDD handle histories to saturation, node-store invariants in every state, under ASan",
-    "quick": [("rel", "c18.sat"), ("asan", "c18.d4")],
-    "thorough": [("rel", "c18.sat"), ("asan", "c18.sat")],
+    "quick": [("rel", "c18.sat"), ("asan", "c18.d4"), ("rel", "c18.fanin"), ("asan", "c18.fanin")],
+    "thorough": [("rel", "c18.sat"), ("asan", "c18.sat"), ("rel", "c18.fanin"), ("asan", "c18.fanin")],
     "require": {"all": ["transitions_into_sharing_states"]},
 }
 
